@@ -104,6 +104,39 @@ func c17NickOK(n string) bool {
 	return true
 }
 
+// a user / host name the server can put in a prefix: a word without '!' and '@'
+func c17NameOK(n string) bool {
+	if n == "" {
+		return false
+	}
+	for i := 0; i < len(n); i++ {
+		switch n[i] {
+		case 0, 9, 10, 11, 12, 13, 32, '!', '@':
+			return false
+		}
+	}
+	return true
+}
+
+// "user@host" as the events carry it (split at the FIRST '@', like Entry/EntryC17.dec_uh)
+func c17UH(p string) (string, string, bool) {
+	i := strings.Index(p, "@")
+	if i < 0 {
+		return p, "", false
+	}
+	u, h := p[:i], p[i+1:]
+	return u, h, c17NameOK(u) && c17NameOK(h)
+}
+
+// the tail of the welcome text: "" = bare nick, else user@host
+func c17TailOK(p string) bool {
+	if p == "" {
+		return true
+	}
+	_, _, ok := c17UH(p)
+	return ok
+}
+
 func (s *c17Srv) inUse(n string) bool {
 	for _, o := range s.others {
 		if o == n {
@@ -134,17 +167,19 @@ func (s *c17Srv) enabled(e c17Ev) bool {
 	case "coll":
 		return len(s.pending) > 0 && c17NickOK(s.pending[0]) && !(s.reg && s.pending[0] == s.nick)
 	case "welsame":
-		return !s.reg && len(s.pending) > 0 && c17NickOK(s.pending[0]) && !s.inUse(s.pending[0])
+		return !s.reg && len(s.pending) > 0 && c17NickOK(s.pending[0]) && !s.inUse(s.pending[0]) && c17TailOK(e.p1)
 	case "weldiff":
-		return !s.reg && c17NickOK(e.p1) && !s.inUse(e.p1)
+		return !s.reg && c17NickOK(e.p1) && !s.inUse(e.p1) && c17TailOK(e.p2)
 	case "req":
 		return s.reg
 	case "confirm":
-		return s.reg && len(s.pending) > 0 && c17NickOK(s.pending[0]) && !s.inUse(s.pending[0]) && s.pending[0] != s.nick
+		_, _, ok := c17UH(e.p1)
+		return s.reg && len(s.pending) > 0 && c17NickOK(s.pending[0]) && !s.inUse(s.pending[0]) && s.pending[0] != s.nick && ok
 	case "ignore":
 		return len(s.pending) > 0
 	case "force":
-		return s.reg && c17NickOK(e.p1) && !s.inUse(e.p1) && e.p1 != s.nick
+		_, _, ok := c17UH(e.p2)
+		return s.reg && c17NickOK(e.p1) && !s.inUse(e.p1) && e.p1 != s.nick && ok
 	case "other":
 		return s.reg && s.inUse(e.p1) && c17NickOK(e.p1) && c17NickOK(e.p2) && !s.inUse(e.p2) && e.p2 != s.nick
 	case "new":
@@ -175,17 +210,20 @@ func (s *c17Srv) act(e c17Ev) (line, action, arg string) {
 		line = c17Src + "433 " + s.curOrStar() + " " + x + " :Nickname is already in use"
 		s.pending = s.pending[1:]
 	case "welsame", "weldiff":
-		n := e.p1
+		n, tail := e.p1, e.p2
 		if e.tag == "welsame" {
-			n = s.pending[0]
+			n, tail = s.pending[0], e.p1
 		}
-		line = c17Src + "001 " + n + " :Welcome to the net " + n + "!u@host.example"
+		line = c17Src + "001 " + n + " :Welcome to the net " + n
+		if tail != "" {
+			line += "!" + tail
+		}
 		s.reg, s.nick, s.pending = true, n, nil
 	case "req":
 		action, arg = "nick", e.p1
 	case "confirm":
 		x := s.pending[0]
-		line = ":" + s.nick + "!u@host.example NICK " + x
+		line = ":" + s.nick + "!" + e.p1 + " NICK " + x
 		s.nick, s.pending = x, s.pending[1:]
 	case "ignore":
 		x := s.pending[0]
@@ -195,7 +233,7 @@ func (s *c17Srv) act(e c17Ev) (line, action, arg string) {
 		line = c17Src + "432 " + s.curOrStar() + " " + x + " :Erroneous Nickname"
 		s.pending = s.pending[1:]
 	case "force":
-		line = ":" + s.nick + "!u@host.example NICK " + e.p1
+		line = ":" + s.nick + "!" + e.p2 + " NICK " + e.p1
 		s.nick = e.p1
 	case "other":
 		line = ":" + e.p1 + "!u@host.example NICK " + e.p2
@@ -500,6 +538,14 @@ func (m *c17Sim) free(pool []string, skip int) string {
 	return ""
 }
 
+const (
+	c17UHStd   = "u@host.example"
+	c17UHCloak = "~u@cloak.example"
+)
+
+// what a server may show as the client's user@host: the welcomed one, a cloak / vhost, other case
+var c17UHs = []string{c17UHStd, c17UHCloak, "U@HOST.EXAMPLE", "u@host.example.", "u@10.0.0.1"}
+
 // the enabled events (canonical parameters) in the current state
 func (m *c17Sim) moves(pool []string, track bool) []c17Ev {
 	var ev []c17Ev
@@ -510,9 +556,11 @@ func (m *c17Sim) moves(pool []string, track bool) []c17Ev {
 	}
 	add(c17Ev{"coll", "", ""})
 	if !m.sv.reg {
+		// the welcome text ends in nick!user@host (the client records that host) or in the bare nick
+		add(c17Ev{"welsame", c17UHStd, ""})
 		add(c17Ev{"welsame", "", ""})
 		if len(m.sv.pending) > 0 && len(m.sv.pending[0]) > 1 {
-			add(c17Ev{"weldiff", m.sv.pending[0][:len(m.sv.pending[0])-1], ""}) // truncated by the server
+			add(c17Ev{"weldiff", m.sv.pending[0][:len(m.sv.pending[0])-1], c17UHStd}) // truncated by the server
 		}
 		add(c17Ev{"weldiff", "Guest1", ""})
 		// a user holding exactly the nick the client asks for: the reason for a collision
@@ -526,10 +574,12 @@ func (m *c17Sim) moves(pool []string, track bool) []c17Ev {
 		if len(m.sv.others) > 0 {
 			add(c17Ev{"req", m.sv.others[0], ""}) // will be refused
 		}
-		add(c17Ev{"confirm", "", ""})
+		// the client's own NICK lines: prefixed with the welcomed user@host, or with a cloak
+		add(c17Ev{"confirm", c17UHStd, ""})
+		add(c17Ev{"confirm", c17UHCloak, ""})
 		add(c17Ev{"ignore", "", ""})
 		if y := m.free(pool, 1); y != "" {
-			add(c17Ev{"force", y, ""})
+			add(c17Ev{"force", y, c17UHs[len(m.sv.pending)%len(c17UHs)]})
 		}
 		if len(m.sv.others) > 0 {
 			if b := m.free(pool, 0); b != "" {
@@ -647,7 +697,7 @@ func c17Random(r *Rand) Fields {
 			}
 			if r.Chance(30) {
 				// a non-enabled semantic event (skipped by the server, flags the script)
-				e = c17PickEv(r, []c17Ev{{"confirm", "", ""}, {"coll", "", ""}, {"welsame", "", ""}, {"force", oth, ""}, {"other", cur, "q"}, {"new", cur, ""}, {"weldiff", oth, ""}, {"track", "nobody", ""}})
+				e = c17PickEv(r, []c17Ev{{"confirm", c17UHStd, ""}, {"confirm", "nohost", ""}, {"coll", "", ""}, {"welsame", "", ""}, {"force", oth, c17UHStd}, {"force", "zz", "bad host@x"}, {"other", cur, "q"}, {"new", cur, ""}, {"weldiff", oth, ""}, {"track", "nobody", ""}})
 			} else {
 				e = c17Ev{"raw", l, ""}
 			}
@@ -655,7 +705,8 @@ func c17Random(r *Rand) Fields {
 			mv := m.moves(pool, track)
 			// richer parameters than the canonical ones
 			if m.sv.reg && r.Chance(30) {
-				mv = append(mv, c17Ev{"req", r.Pick(pool), ""}, c17Ev{"force", r.Pick(pool), ""}, c17Ev{"new", r.Pick(pool), ""})
+				mv = append(mv, c17Ev{"req", r.Pick(pool), ""}, c17Ev{"force", r.Pick(pool), r.Pick(c17UHs)}, c17Ev{"new", r.Pick(pool), ""},
+					c17Ev{"confirm", r.Pick(c17UHs), ""})
 				if len(m.sv.others) > 0 {
 					mv = append(mv, c17Ev{"other", r.Pick(m.sv.others), r.Pick(pool)})
 				}
@@ -670,12 +721,14 @@ func c17Random(r *Rand) Fields {
 				mv = append(mv, c17Ev{"req", r.Pick([]string{"", "two words", "x\r\ny", ":lead", m.sv.nick}), ""})
 			}
 			if len(mv) == 0 {
-				mv = []c17Ev{{"ignore", "", ""}, {"weldiff", "Guest1", ""}}
+				mv = []c17Ev{{"ignore", "", ""}, {"weldiff", "Guest1", c17UHStd}}
 			}
 			e = mv[r.Intn(len(mv))]
 			// stay in the registration phase for a while now and then
 			if !m.sv.reg && (e.tag == "welsame" || e.tag == "weldiff") && r.Chance(50) {
 				e = c17Ev{"coll", "", ""}
+			} else if e.tag == "welsame" && r.Chance(30) {
+				e.p1 = r.Pick(c17UHs)
 			}
 		}
 		script = append(script, e)
